@@ -133,11 +133,6 @@ Definition dreg_equiv (a b : derives_registry) : Prop :=
     set_eq (d_derives (kmap_get_or_empty (dr_recursive a) key)) (d_derives (kmap_get_or_empty (dr_recursive b) key)) /\
     set_eq (d_attrs (kmap_get_or_empty (dr_recursive a) key)) (d_attrs (kmap_get_or_empty (dr_recursive b) key)).
 
-(** the set identity of a derive / attribute is its key (token string): a list
-    of [kt] is well-keyed when equal keys carry equal tokens *)
-Definition key_functional (l : list kt) : Prop :=
-  forall x y, In x l -> In y l -> fst x = fst y -> x = y.
-
 (** ** validation (C11), from the property text *)
 Definition nonempty {A} (l : list A) : bool := match l with [] => false | _ => true end.
 (** every key with a non-empty derive or attribute set, and every substitute source, is a registry path *)
